@@ -87,7 +87,8 @@ PROPOSED_KNOWN = [
          witness="corpus/C14/dash-type-name.c14 (`package test:comp; type foo- = u8;`, also `interface foo- {}`, `world w- {}`)",
          text="the lexer accepts an identifier with a dangling `-` (C12 finding dangling_dash); used as the name of a "
               "top-level type / interface / world it reaches define_type, whose InvalidExternName error is mapped to "
-              "panic!(\"parsed an invalid type name\")"),
+              "panic!(\"parsed an invalid type name\"). Small fix proposed: hooks/fix-c14-invalid-type-name.patch (report "
+              "Error::InvalidExternName, as import and export statements already do)"),
     dict(property=PID, id="encoder-resource-maps", status="known", signature="panic:encode:encoding.rs:resource-maps",
          witness="corpus/C14/enc-export-resource-key.c14, enc-own-key.c14, enc-import-resource-owner.c14, "
                  "enc-include-used-resource-alias.c14",
@@ -100,6 +101,13 @@ PROPOSED_KNOWN = [
          text="Package::from_bytes panics (`assert!(prev.is_none())` in TypeConverter's owner map) on a VALID component "
               "produced by wac's own encoder: a world that imports and exports one interface (same instance type index) "
               "with a resource that an inline interface uses under another name, included into another world"),
+    dict(property=PID, id="todo-func-exact", status="known", signature="panic:from_bytes:package.rs:todo-func-exact",
+         witness="corpus/C14/todo-func-exact-export.c14, todo-func-exact-import.c14; byte strings component-wat:9, component-wat:10",
+         text="Package::from_bytes validates with WasmFeatures::all() (custom-descriptors included) and then hits "
+              "`todo!()` for wasmparser::types::EntityType::FuncExact when the component imports or exports a core "
+              "module with an exact function import (`(import \"a\" \"b\" (func (exact (type 0))))`): a component it "
+              "accepts as valid panics the decoder. Small fix proposed: hooks/fix-c14-func-exact.patch (return an "
+              "error, like the other unsupported features)"),
     dict(property=PID, id="aggregator-self-use-recursion", status="known", signature="abort:encode:stack-overflow:same-track-use",
          witness="corpus/C14/aggregator-self-use.c14",
          text="a package importing a:b/c@1.1.0 and a:b/c@1.0.0 where the latter uses a type of the former (one semver "
@@ -108,10 +116,6 @@ PROPOSED_KNOWN = [
               "document and a package)"),
 ]
 
-TODO_FUNC_EXACT = ("todo-func-exact: `todo!()` for EntityType::FuncExact in package.rs (core module type conversion). Not "
-                   "reachable with the toolchain at hand: wat 1.245 / wasm-encoder 0.247 offer no text or builder syntax "
-                   "that makes wasmparser yield EntityType::FuncExact for a module import/export inside a VALID "
-                   "component with default features; reported by reading only, no witness")
 
 
 def known_entries():
@@ -186,6 +190,8 @@ def signature(kind, origin, text, obs):
         if st == "encode" and f == "encoding.rs" and ("no entry found for key" in obs or "should have owner" in obs) \
                 and "resource" in t and ("use " in t or "include " in t):
             return "panic:encode:encoding.rs:resource-maps"
+        if st in ("from_bytes", "resolve", "reload") and f == "package.rs" and "EntityType::FuncExact" in obs:
+            return "panic:from_bytes:package.rs:todo-func-exact"
         if st == "reload" and f == "package.rs" and "prev.is_none()" in obs and "resource" in t and "include " in t \
                 and re.search(r"\bimport\s+([A-Za-z%][A-Za-z0-9-]*)\s*;", t) and re.search(r"\bexport\s+([A-Za-z%][A-Za-z0-9-]*)\s*;", t):
             return "panic:reload:package.rs:owner-assert"
@@ -421,8 +427,7 @@ def run(res, tier, seed, replay):
     res.assumptions = [
         "source texts are valid UTF-8 (Rust &str); byte-level mutations are decoded lossily before they are parsed",
         "a returned anyhow/miette error is a return; only a caught panic, a dead worker or a timeout count as 'did not return'",
-        "per-input timeout %s s" % os.environ.get("C14_TIMEOUT_S", "20"),
-        TODO_FUNC_EXACT]
+        "per-input timeout %s s" % os.environ.get("C14_TIMEOUT_S", "20")]
 
     if not violations:
         if disagreements:
